@@ -190,8 +190,8 @@ def run_chunk(chunk, ctx):
             m = ex.model()
             case = dict(w=SymStr(chars).concretize(m), line=1, col=1, props=sorted(props))
             import traceback
-            from symx.native import site_of
-            col.violation("hang::" + site_of(res.__traceback__), "lexer step does not terminate", case)
+            from symx.native import hang_site
+            col.violation("hang::" + hang_site(res.__traceback__), "lexer step does not terminate", case)
         elif status == "ok" and not cur.get("viol") and col.want_witness():
             m = ex.model()
             case = dict(w=SymStr(chars).concretize(m) if chars else "",
